@@ -481,27 +481,36 @@ def t_ncp( ctx ):
     if len( enc_assign ) != 1:
         raise AnalysisError( 'Connection.__init__: NCP encoding expression not found' )
     enc = enc_assign[0].value
-    shifts = {}
-    for n in ast.walk( enc ):
-        if isinstance( n, ast.BinOp ) and isinstance( n.op, ast.LShift ):
-            sh = try_fold( n.right )
-            m = pmatch( n.left, '_d if _f is None else _f' )
-            if m is not None and isinstance( sh, int ) and isinstance( m['_f'], ast.Name ):
-                shifts[m['_f'].id] = sh
-    large_shift = [ n for n in ast.walk( enc ) if isinstance( n, ast.BinOp ) and isinstance( n.op, ast.LShift )
-                    and ( pmatch( n.right, '16 if self._large else 0' ) or pmatch( n.right, '0 if not self._large else 16' )) ]
-    size_add = pmatch( enc, '_hi + ( size or _dflt )' )
-    for f, ( sh, mask ) in sorted( spec.NCP_FIELDS_SMALL.items() ):
-        if f == 'size':
-            continue
-        if shifts.get( f ) == sh:
+    # ---- encode, decode and the inference of Large are decided by VALUE: the expressions are evaluated on probe words / field values and
+    # compared with the CIP bit-field table ( sa/spec.py ), so any equivalent way of writing the shifts and masks passes
+    FIELDS = [ ( f, sh, mask ) for f, ( sh, mask ) in sorted( spec.NCP_FIELDS_SMALL.items()) if f != 'size' ]
+    def want_ncp( vals, large ):
+        w = 0
+        for f, sh, mask in FIELDS:
+            w |= ( vals[f] & mask ) << sh
+        return ( w << ( 16 if large else 0 )) + vals['size']
+    bad_enc = None
+    n_enc = 0
+    for large in ( False, True ):
+        base = dict( size=0x1F4 if not large else 0x0FA0, variable=0, priority=0, type=0, redundant=0 )
+        probes = [ dict( base ) ] + [ dict( base, **{ f: v } ) for f, sh, mask in FIELDS for v in range( 1, mask + 1 ) ] + [ dict( base, size=1 ), dict( base, size=0x1FF if not large else 0xFFFF ) ]
+        for vals in probes:
+            env = dict( vals ); env['self._large'] = large
+            try:
+                got = fold( enc, env )
+            except NoFold as exc:
+                raise AnalysisError( 'Connection.__init__: NCP encoding not foldable: %s' % exc )
+            n_enc += 1
+            if got != want_ncp( vals, large ) and bad_enc is None:
+                bad_enc = ( vals, large, got, want_ncp( vals, large ))
+    if bad_enc is None:
+        for f, sh, mask in FIELDS:
             res.ok( src, enc_assign[0], 'encode: %s << %d' % ( f, sh ))
-        else:
-            res.bad( src, enc_assign[0], 'encode: %s << %r' % ( f, shifts.get( f )), 'CIP NCP field %s occupies bits %d..' % ( f, sh ))
-    if large_shift and size_add is not None:
-        res.ok( src, enc_assign[0], 'encode: parameter bits << 16 when large; size added in the low bits' )
+        res.ok( src, enc_assign[0], 'encode: parameter bits << 16 when large; size added in the low bits ( %d probes )' % n_enc )
     else:
-        res.bad( src, enc_assign[0], 'encode: large shift / size', 'a Large Forward Open NCP is the same parameter bits 16 bits up, with the size in the low 16 bits' )
+        vals, large, got, want = bad_enc
+        res.bad( src, enc_assign[0], 'encode: %s, large=%s -> 0x%X' % ( ', '.join( '%s=%d' % kv for kv in sorted( vals.items())), large, got ),
+                 'the CIP Network Connection Parameters of these values are 0x%X ( redundant owner bit 15, type 13-14, priority 10-11, variable 9, size in the low 9 bits; Large: the same parameter bits 16 bits up, size in the low 16 bits )' % want )
     # decode
     kws = {}
     for c in ast.walk( dec ):
@@ -509,29 +518,46 @@ def t_ncp( ctx ):
             kws = { k.arg: k.value for k in c.keywords }
     if not kws:
         raise AnalysisError( 'Connection.decoding: dotdict( field=... ) not found' )
+    words = [ 0, 0xFFFFFFFF ] + [ 1 << k for k in range( 32 ) ] + [ 0x43F4, 0x420001F4 ]
     for f, ( sh, mask ) in sorted( spec.NCP_FIELDS_SMALL.items() ):
         e = kws.get( f )
         if e is None:
             res.bad( src, dec, 'decoding lacks %s' % f, 'every NCP field must be decoded' ); continue
-        if f == 'size':
-            m = pmatch( e, 'self._NCP & ( _l if self._large else _s )' )
-            if m is not None and try_fold( m['_l'] ) == spec.NCP_FIELDS_LARGE['size'][1] and try_fold( m['_s'] ) == mask:
-                res.ok( src, e, 'decode: size = NCP & ( 0xFFFF if large else 0x01FF )' )
-            else:
-                res.bad( src, e, 'decode size: ' + norm_text( e ), 'size is the low 9 bits (small) / 16 bits (large)' )
-            continue
-        m = pmatch( e, '_m & self._NCP >> ( _s + ( 16 if self._large else 0 ))' ) or pmatch( e, '( self._NCP >> ( _s + ( 16 if self._large else 0 ))) & _m' )
-        if m is not None and try_fold( m['_m'] ) == mask and try_fold( m['_s'] ) == sh:
-            res.ok( src, e, 'decode: %s = %d-bit field at bit %d (+16 when large)' % ( f, bin( mask ).count( '1' ), sh ))
+        wrong = None
+        for large in ( False, True ):
+            for w in words:
+                if not large and w > 0xFFFF:
+                    continue
+                try:
+                    got = fold( e, { 'self._NCP': w, 'self._large': large } )
+                except NoFold as exc:
+                    raise AnalysisError( 'Connection.decoding: %s not foldable: %s' % ( f, exc ))
+                want = ( w & ( spec.NCP_FIELDS_LARGE['size'][1] if large else mask )) if f == 'size' else ( w >> ( sh + ( 16 if large else 0 ))) & mask
+                if got != want and wrong is None:
+                    wrong = ( w, large, got, want )
+        if wrong is None:
+            res.ok( src, e, 'decode: size = NCP & ( 0xFFFF if large else 0x01FF )' if f == 'size' else 'decode: %s = %d-bit field at bit %d (+16 when large)' % ( f, bin( mask ).count( '1' ), sh ))
         else:
-            res.bad( src, e, 'decode %s: %s' % ( f, norm_text( e )), 'CIP NCP field %s is mask 0x%X at bit %d (+16 when large)' % ( f, mask, sh ))
-        if shifts.get( f ) is not None and m is not None and try_fold( m['_s'] ) != shifts.get( f ):
-            res.bad( src, e, 'decode %s shift %r vs encode shift %r' % ( f, try_fold( m['_s'] ), shifts.get( f )), 'encode and decode disagree' )
-    # large inference
-    if pfind( ini, 'self._large = bool( size and size > 511 ) or bool( NCP and NCP > 65535 )' ):
-        res.ok( src, ini, 'large inferred from size > 0x1FF or NCP > 0xFFFF' )
-    else:
+            res.bad( src, e, 'decode %s: NCP 0x%X, large=%s -> %r' % (( f, ) + wrong[:3] ), 'CIP NCP field %s is %s: %r' % ( f, 'the low 9 bits ( small ) / 16 bits ( large )' if f == 'size' else 'mask 0x%X at bit %d (+16 when large)' % ( mask, sh ), wrong[3] ))
+    # large inference: the expression stored into self._large where no explicit flag is given
+    inf = [ a_ for a_ in ast.walk( ini ) if isinstance( a_, ast.Assign ) and dotted( a_.targets[0] ) == 'self._large' and { 'size', 'NCP' } <= names_in( a_.value ) ]
+    if len( inf ) != 1:
         res.bad( src, ini, 'large inference', 'without an explicit flag, Large is inferred from size > 0x1FF or NCP > 0xFFFF' )
+    else:
+        wrong = None
+        for size in ( None, 0, 1, 0x1FF, 0x200, 4000 ):
+            for NCP in ( None, 0, 0x43F4, 0xFFFF, 0x10000, 0x420001F4 ):
+                try:
+                    got = bool( fold( inf[0].value, { 'size': size, 'NCP': NCP } ))
+                except NoFold as exc:
+                    raise AnalysisError( 'Connection.__init__: large inference not foldable: %s' % exc )
+                want = bool( size and size > 0x1FF ) or bool( NCP and NCP > 0xFFFF )
+                if got != want and wrong is None:
+                    wrong = ( size, NCP, got )
+        if wrong is None:
+            res.ok( src, inf[0], 'large inferred from size > 0x1FF or NCP > 0xFFFF ( 36 cells )' )
+        else:
+            res.bad( src, inf[0], 'large inference: size=%r, NCP=%r -> %r' % wrong, 'without an explicit flag, Large is inferred from size > 0x1FF or NCP > 0xFFFF' )
     return res
 
 
